@@ -265,7 +265,7 @@ fn run_inner<P: Property>(args: &RunArgs, root: &PathBuf, start: Instant) -> i32
         ));
     }
     if P::concurrent() {
-        rule.push_str(" Concurrent use (framework): per worker up to 48 non-trivial cases that passed alone are evaluated again from 4 threads at once, each thread starting at a different offset, and must pass again (class evaluated-concurrently).");
+        rule.push_str(" Concurrent use (framework): per worker an eighth of its cases (between 16 and 256; non-trivial ones that passed alone) are evaluated again from 4 threads at once, each thread starting at a different offset, and must pass again (class evaluated-concurrently).");
     }
     if agg.fp_capped {
         rule.push_str(" [distinct count capped per worker at 3e6 fingerprints: conservative]");
